@@ -132,21 +132,21 @@ theorem nestedRC_rng (r : VRange) :
 /-- a python item as `create_nested_marker` prints it: `python_version` / `python_full_version`, an ordered
 comparison, a printed release (at least three components for `python_full_version`); `Q` is an additional
 property of (variable, release) that the producers of such items may establish -/
-def PyItemQ (Q : String → List Nat → Prop) (n op v : String) : Prop :=
-  ∃ lit : List Nat, PyName n ∧ CmpOp op ∧ lit ≠ [] ∧ (n = "python_full_version" → 3 ≤ lit.length) ∧ Q n lit ∧
+def PyItemQ (Q : String → String → List Nat → Prop) (n op v : String) : Prop :=
+  ∃ lit : List Nat, PyName n ∧ CmpOp op ∧ lit ≠ [] ∧ (n = "python_full_version" → 3 ≤ lit.length) ∧ Q n op lit ∧
     v = relText lit
 
 /-- no additional property -/
-def QTrue : String → List Nat → Prop := fun _ _ => True
+def QTrue : String → String → List Nat → Prop := fun _ _ _ => True
 
 abbrev PyItem3 (n op v : String) : Prop := PyItemQ QTrue n op v
 
 mutual
 /-- a syntax tree all of whose items are such python items, operands in the usual order -/
-def PyAtomQ (Q : String → List Nat → Prop) : Atom → Prop
+def PyAtomQ (Q : String → String → List Nat → Prop) : Atom → Prop
   | .item n op v sw => sw = false ∧ PyItemQ Q n op v
   | .paren m => PySynQ Q m
-def PySynQ (Q : String → List Nat → Prop) : Syn → Prop
+def PySynQ (Q : String → String → List Nat → Prop) : Syn → Prop
   | .one a => PyAtomQ Q a
   | .more a _ rest => PyAtomQ Q a ∧ PySynQ Q rest
 end
@@ -155,25 +155,45 @@ abbrev PyAtom : Atom → Prop := PyAtomQ QTrue
 abbrev PySyn : Syn → Prop := PySynQ QTrue
 
 /-- the text `s` is one python item whose reference value on `E` is `b` -/
-def LeafMeansQ (Q : String → List Nat → Prop) (E : Env) (s : String) (b : Bool) : Prop :=
+def LeafMeansQ (Q : String → String → List Nat → Prop) (E : Env) (s : String) (b : Bool) : Prop :=
   ∃ n op v, PyItemQ Q n op v ∧ s.toList = leafChars n op v.toList ∧ evalItem n op v false E = some b
 
 abbrev LeafMeans (E : Env) (s : String) (b : Bool) : Prop := LeafMeansQ QTrue E s b
 
-/-- what a producer of items needs of a bound `m`: `Q` holds of the items printed for it -/
-def BoundQ (Q : String → List Nat → Prop) (m : Version) : Prop :=
-  (∀ a, m.release = [a] → Q "python_version" [a] ∧ Q "python_full_version" [a, 0, 0]) ∧
-  (∀ a b, m.release = [a, b] → Q "python_version" [a, b] ∧ Q "python_full_version" [a, b, 0]) ∧
-  (∀ a b c, m.release = [a, b, c] → Q "python_full_version" [a, b, c])
+/-- what the producer of the lower clause needs of a bound `m` with inclusion flag `incl`: `Q` holds of the item
+printed for it -/
+def BoundLoQ (Q : String → String → List Nat → Prop) (incl : Bool) (m : Version) : Prop :=
+  (∀ a, m.release = [a] →
+    if incl = true then Q "python_version" ">=" [a] else Q "python_full_version" ">" [a, 0, 0]) ∧
+  (∀ a b, m.release = [a, b] →
+    if incl = true then Q "python_version" ">=" [a, b] else Q "python_full_version" ">" [a, b, 0]) ∧
+  (∀ a b c, m.release = [a, b, c] →
+    if incl = true then Q "python_full_version" ">=" [a, b, c] else Q "python_full_version" ">" [a, b, c])
 
-theorem boundQ_true (m : Version) : BoundQ QTrue m :=
-  ⟨fun _ _ => ⟨trivial, trivial⟩, fun _ _ _ => ⟨trivial, trivial⟩, fun _ _ _ _ => trivial⟩
+/-- the same for the upper clause -/
+def BoundHiQ (Q : String → String → List Nat → Prop) (incl : Bool) (m : Version) : Prop :=
+  (∀ a, m.release = [a] →
+    if incl = true then Q "python_full_version" "<=" [a, 0, 0] else Q "python_version" "<" [a]) ∧
+  (∀ a b, m.release = [a, b] →
+    if incl = true then Q "python_full_version" "<=" [a, b, 0] else Q "python_version" "<" [a, b]) ∧
+  (∀ a b c, m.release = [a, b, c] →
+    if incl = true then Q "python_full_version" "<=" [a, b, c] else Q "python_full_version" "<" [a, b, c])
 
-variable {Q : String → List Nat → Prop}
+/-- the same for a single version -/
+def BoundEqQ (Q : String → String → List Nat → Prop) (m : Version) : Prop :=
+  ∀ a b c, m.release = [a, b, c] → Q "python_full_version" "==" [a, b, c]
+
+theorem boundLoQ_true (i : Bool) (m : Version) : BoundLoQ QTrue i m := by
+  refine ⟨fun _ _ => ?_, fun _ _ _ => ?_, fun _ _ _ _ => ?_⟩ <;> cases i <;> exact trivial
+theorem boundHiQ_true (i : Bool) (m : Version) : BoundHiQ QTrue i m := by
+  refine ⟨fun _ _ => ?_, fun _ _ _ => ?_, fun _ _ _ _ => ?_⟩ <;> cases i <;> exact trivial
+theorem boundEqQ_true (m : Version) : BoundEqQ QTrue m := fun _ _ _ _ => trivial
+
+variable {Q : String → String → List Nat → Prop}
 
 theorem leafMeans_mk (E : Env) (n op : String) (lit cand : List Nat) (hn : PyName n) (hop : CmpOp op)
     (hlit : lit ≠ []) (hcand : cand ≠ []) (hE : E.get? n = some (relText cand))
-    (hq : Q n lit)
+    (hq : Q n op lit)
     (hfull : n = "python_full_version" → 3 ≤ lit.length := by simp) :
     LeafMeansQ Q E (n ++ " " ++ op ++ " \"" ++ relText lit ++ "\"")
       (opTest op (compare (stripZeros cand) (stripZeros lit))) := by
@@ -222,7 +242,7 @@ theorem ne_gt_iff (c : Ordering) : c ≠ .gt ↔ ¬ c = .gt := Iff.rfl
 
 /-- **lower clause**: printed as one python item whose reference value is membership above the lower bound -/
 theorem nestedLo_means (E : Env) (r : VRange) {m : Version} (hm : r.min = some m) (hb : PyBound m = true)
-    (hQ : BoundQ Q m) (X Y Z : Nat) (hE : EnvPy E X Y Z) :
+    (hQ : BoundLoQ Q r.imin m) (X Y Z : Nat) (hE : EnvPy E X Y Z) :
     ∃ s b, nestedLo r = [s] ∧ LeafMeansQ Q E s b ∧ (b = true ↔ r.denLo (pyV X Y Z)) := by
   obtain ⟨_, _, _, _, _, ht, hr⟩ := PyBound_parts hb
   have hden := denLo_py r hm hb X Y Z
@@ -230,33 +250,33 @@ theorem nestedLo_means (E : Env) (r : VRange) {m : Version} (hm : r.min = some m
   · -- precision 1
     cases hi : r.imin
     · refine ⟨_, _, ?_, leafMeans_mk E "python_full_version" ">" [a, 0, 0] [X, Y, Z] (Or.inr rfl)
-        (Or.inr (Or.inl rfl)) (by simp) (by simp) hE.2 (hQ.1 a e).2, ?_⟩
+        (Or.inr (Or.inl rfl)) (by simp) (by simp) hE.2 (by simpa [hi] using hQ.1 a e), ?_⟩
       · simp [nestedLo, hm, Version.precision, e, hi, ht, ← relText_pad1, String.append_assoc]
       · rw [hden, opTest_gt, sz3, lex3_gt]; simp only [hi, e, pad3, lex3_lt, Bool.false_eq_true, if_false]; omega
     · refine ⟨_, _, ?_, leafMeans_mk E "python_version" ">=" [a] [X, Y] (Or.inl rfl)
-        (Or.inl rfl) (by simp) (by simp) hE.1 (hQ.1 a e).1, ?_⟩
+        (Or.inl rfl) (by simp) (by simp) hE.1 (by simpa [hi] using hQ.1 a e), ?_⟩
       · simp [nestedLo, hm, Version.precision, e, hi, ht]
       · rw [hden, opTest_ge, sz_pad1, sz_pad2, sz3]
         simp only [hi, e, pad3, if_true, ne_eq, lex3_lt, lex3_gt]; omega
   · -- precision 2
     cases hi : r.imin
     · refine ⟨_, _, ?_, leafMeans_mk E "python_full_version" ">" [a, b, 0] [X, Y, Z] (Or.inr rfl)
-        (Or.inr (Or.inl rfl)) (by simp) (by simp) hE.2 (hQ.2.1 a b e).2, ?_⟩
+        (Or.inr (Or.inl rfl)) (by simp) (by simp) hE.2 (by simpa [hi] using hQ.2.1 a b e), ?_⟩
       · simp [nestedLo, hm, Version.precision, e, hi, ht, ← relText_pad2, String.append_assoc]
       · rw [hden, opTest_gt, sz3, lex3_gt]; simp only [hi, e, pad3, lex3_lt, Bool.false_eq_true, if_false]; omega
     · refine ⟨_, _, ?_, leafMeans_mk E "python_version" ">=" [a, b] [X, Y] (Or.inl rfl)
-        (Or.inl rfl) (by simp) (by simp) hE.1 (hQ.2.1 a b e).1, ?_⟩
+        (Or.inl rfl) (by simp) (by simp) hE.1 (by simpa [hi] using hQ.2.1 a b e), ?_⟩
       · simp [nestedLo, hm, Version.precision, e, hi, ht]
       · rw [hden, opTest_ge, sz_pad2, sz_pad2, sz3]
         simp only [hi, e, pad3, if_true, ne_eq, lex3_lt, lex3_gt]; omega
   · -- precision 3
     cases hi : r.imin
     · refine ⟨_, _, ?_, leafMeans_mk E "python_full_version" ">" [a, b, c] [X, Y, Z] (Or.inr rfl)
-        (Or.inr (Or.inl rfl)) (by simp) (by simp) hE.2 (hQ.2.2 a b c e), ?_⟩
+        (Or.inr (Or.inl rfl)) (by simp) (by simp) hE.2 (by simpa [hi] using hQ.2.2 a b c e), ?_⟩
       · simp [nestedLo, hm, Version.precision, e, hi, ht]
       · rw [hden, opTest_gt, sz3, lex3_gt]; simp only [hi, e, pad3, lex3_lt, Bool.false_eq_true, if_false]; omega
     · refine ⟨_, _, ?_, leafMeans_mk E "python_full_version" ">=" [a, b, c] [X, Y, Z] (Or.inr rfl)
-        (Or.inl rfl) (by simp) (by simp) hE.2 (hQ.2.2 a b c e), ?_⟩
+        (Or.inl rfl) (by simp) (by simp) hE.2 (by simpa [hi] using hQ.2.2 a b c e), ?_⟩
       · simp [nestedLo, hm, Version.precision, e, hi, ht]
       · rw [hden, opTest_ge, sz3]
         simp only [hi, e, pad3, if_true, ne_eq, lex3_lt, lex3_gt]; omega
@@ -264,7 +284,7 @@ theorem nestedLo_means (E : Env) (r : VRange) {m : Version} (hm : r.min = some m
 
 /-- **upper clause**: printed as one python item whose reference value is membership below the upper bound -/
 theorem nestedHi_means (E : Env) (r : VRange) {m : Version} (hm : r.max = some m) (hb : PyBound m = true)
-    (hQ : BoundQ Q m) (X Y Z : Nat) (hE : EnvPy E X Y Z) :
+    (hQ : BoundHiQ Q r.imax m) (X Y Z : Nat) (hE : EnvPy E X Y Z) :
     ∃ s b, nestedHi r = [s] ∧ LeafMeansQ Q E s b ∧ (b = true ↔ r.rawHi (pyV X Y Z)) := by
   obtain ⟨_, _, _, _, _, ht, hr⟩ := PyBound_parts hb
   have hden := rawHi_py r hm hb X Y Z
@@ -272,36 +292,36 @@ theorem nestedHi_means (E : Env) (r : VRange) {m : Version} (hm : r.max = some m
   · -- precision 1
     cases hi : r.imax
     · refine ⟨_, _, ?_, leafMeans_mk E "python_version" "<" [a] [X, Y] (Or.inl rfl)
-        (Or.inr (Or.inr (Or.inr (Or.inl rfl)))) (by simp) (by simp) hE.1 (hQ.1 a e).1, ?_⟩
+        (Or.inr (Or.inr (Or.inr (Or.inl rfl)))) (by simp) (by simp) hE.1 (by simpa [hi] using hQ.1 a e), ?_⟩
       · simp [nestedHi, hm, Version.precision, e, hi, ht]
       · rw [hden, opTest_lt, sz_pad1, sz_pad2, sz3]
         simp only [hi, e, pad3, lex3_lt, Bool.false_eq_true, if_false]; omega
     · refine ⟨_, _, ?_, leafMeans_mk E "python_full_version" "<=" [a, 0, 0] [X, Y, Z] (Or.inr rfl)
-        (Or.inr (Or.inr (Or.inl rfl))) (by simp) (by simp) hE.2 (hQ.1 a e).2, ?_⟩
+        (Or.inr (Or.inr (Or.inl rfl))) (by simp) (by simp) hE.2 (by simpa [hi] using hQ.1 a e), ?_⟩
       · simp [nestedHi, hm, Version.precision, e, hi, ht, ← relText_pad1, String.append_assoc]
       · rw [hden, opTest_le, sz3]
         simp only [hi, e, pad3, if_true, ne_eq, lex3_lt, lex3_gt]
   · -- precision 2
     cases hi : r.imax
     · refine ⟨_, _, ?_, leafMeans_mk E "python_version" "<" [a, b] [X, Y] (Or.inl rfl)
-        (Or.inr (Or.inr (Or.inr (Or.inl rfl)))) (by simp) (by simp) hE.1 (hQ.2.1 a b e).1, ?_⟩
+        (Or.inr (Or.inr (Or.inr (Or.inl rfl)))) (by simp) (by simp) hE.1 (by simpa [hi] using hQ.2.1 a b e), ?_⟩
       · simp [nestedHi, hm, Version.precision, e, hi, ht]
       · rw [hden, opTest_lt, sz_pad2, sz_pad2, sz3]
         simp only [hi, e, pad3, lex3_lt, Bool.false_eq_true, if_false]; omega
     · refine ⟨_, _, ?_, leafMeans_mk E "python_full_version" "<=" [a, b, 0] [X, Y, Z] (Or.inr rfl)
-        (Or.inr (Or.inr (Or.inl rfl))) (by simp) (by simp) hE.2 (hQ.2.1 a b e).2, ?_⟩
+        (Or.inr (Or.inr (Or.inl rfl))) (by simp) (by simp) hE.2 (by simpa [hi] using hQ.2.1 a b e), ?_⟩
       · simp [nestedHi, hm, Version.precision, e, hi, ht, ← relText_pad2, String.append_assoc]
       · rw [hden, opTest_le, sz3]
         simp only [hi, e, pad3, if_true, ne_eq, lex3_lt, lex3_gt]
   · -- precision 3
     cases hi : r.imax
     · refine ⟨_, _, ?_, leafMeans_mk E "python_full_version" "<" [a, b, c] [X, Y, Z] (Or.inr rfl)
-        (Or.inr (Or.inr (Or.inr (Or.inl rfl)))) (by simp) (by simp) hE.2 (hQ.2.2 a b c e), ?_⟩
+        (Or.inr (Or.inr (Or.inr (Or.inl rfl)))) (by simp) (by simp) hE.2 (by simpa [hi] using hQ.2.2 a b c e), ?_⟩
       · simp [nestedHi, hm, Version.precision, e, hi, ht]
       · rw [hden, opTest_lt, sz3]
         simp only [hi, e, pad3, lex3_lt, Bool.false_eq_true, if_false]
     · refine ⟨_, _, ?_, leafMeans_mk E "python_full_version" "<=" [a, b, c] [X, Y, Z] (Or.inr rfl)
-        (Or.inr (Or.inr (Or.inl rfl))) (by simp) (by simp) hE.2 (hQ.2.2 a b c e), ?_⟩
+        (Or.inr (Or.inr (Or.inl rfl))) (by simp) (by simp) hE.2 (by simpa [hi] using hQ.2.2 a b c e), ?_⟩
       · simp [nestedHi, hm, Version.precision, e, hi, ht]
       · rw [hden, opTest_le, sz3]
         simp only [hi, e, pad3, if_true, ne_eq, lex3_lt, lex3_gt]
@@ -368,7 +388,8 @@ theorem allows_py_iff (r : VRange) (hr : PyRange r = true) (X Y Z : Nat) :
 
 /-- **`create_nested_marker` for one range is exact**: the printed text parses, and its reference value on
 the environment of interpreter `X.Y.Z` is membership of `X.Y.Z` in the range. -/
-theorem nestedRng_exact (E : Env) (r : VRange) (hr : PyRange r = true) (hQ : ∀ m ∈ r.bounds, BoundQ Q m)
+theorem nestedRng_exact (E : Env) (r : VRange) (hr : PyRange r = true)
+    (hQ : (∀ m, r.min = some m → BoundLoQ Q r.imin m) ∧ (∀ m, r.max = some m → BoundHiQ Q r.imax m))
     (X Y Z : Nat) (hE : EnvPy E X Y Z) :
     ∃ syn, ConjParse (nestedRC "python_version" (.rng r)).toList syn ∧
       parseText (nestedRC "python_version" (.rng r)) = .ok syn ∧
@@ -390,7 +411,7 @@ theorem nestedRng_exact (E : Env) (r : VRange) (hr : PyRange r = true) (hQ : ∀
     cases hmax : r.max with
     | none => rcases hr'.2 with ⟨_, h⟩ | ⟨_, h⟩ <;> simp_all
     | some M =>
-      obtain ⟨s, b, hs, hm, hb⟩ := nestedHi_means E r hmax (by simpa [hmax] using hr'.1.2) (hQ _ (by simp [VRange.bounds, hmax])) X Y Z hE
+      obtain ⟨s, b, hs, hm, hb⟩ := nestedHi_means E r hmax (by simpa [hmax] using hr'.1.2) (hQ.2 _ hmax) X Y Z hE
       obtain ⟨syn, hc, he⟩ := leaf_conjParse hm
       have hlo : nestedLo r = [] := by simp [nestedLo, hmin]
       rw [hlo, hs]
@@ -398,7 +419,7 @@ theorem nestedRng_exact (E : Env) (r : VRange) (hr : PyRange r = true) (hQ : ∀
       · obtain ⟨n, op, v, hi, hs', _⟩ := hm; rw [hs']; exact leafChars_ne_nil n op _ hi.plain.1
       · rw [hall, hb]; simp [VRange.denLo, hmin]
   | some m =>
-    obtain ⟨s, b, hs, hm, hb⟩ := nestedLo_means E r hmin (by simpa [hmin] using hr'.1.1) (hQ _ (by simp [VRange.bounds, hmin])) X Y Z hE
+    obtain ⟨s, b, hs, hm, hb⟩ := nestedLo_means E r hmin (by simpa [hmin] using hr'.1.1) (hQ.1 _ hmin) X Y Z hE
     cases hmax : r.max with
     | none =>
       obtain ⟨syn, hc, he⟩ := leaf_conjParse hm
@@ -408,7 +429,7 @@ theorem nestedRng_exact (E : Env) (r : VRange) (hr : PyRange r = true) (hQ : ∀
       · obtain ⟨n, op, v, hi, hs', _⟩ := hm; rw [hs']; exact leafChars_ne_nil n op _ hi.plain.1
       · rw [hall, hb]; simp [VRange.rawHi, hmax]
     | some M =>
-      obtain ⟨s', b', hs', hm', hb'⟩ := nestedHi_means E r hmax (by simpa [hmax] using hr'.1.2) (hQ _ (by simp [VRange.bounds, hmax])) X Y Z hE
+      obtain ⟨s', b', hs', hm', hb'⟩ := nestedHi_means E r hmax (by simpa [hmax] using hr'.1.2) (hQ.2 _ hmax) X Y Z hE
       obtain ⟨syn, hc, he⟩ := two_conjParse hm hm'
       rw [hs, hs']
       have e : joinWith " and " ([s] ++ [s']) = s ++ " and " ++ s' := by simp [joinWith]
@@ -424,7 +445,7 @@ theorem nestedRng_exact (E : Env) (r : VRange) (hr : PyRange r = true) (hQ : ∀
 /-! ### one version (precision 3) -/
 
 theorem nestedVer_exact (E : Env) (v : Version) (hb : PyBound v = true) (hp : v.precision = 3)
-    (hQ : BoundQ Q v) (X Y Z : Nat) (hE : EnvPy E X Y Z) :
+    (hQ : BoundEqQ Q v) (X Y Z : Nat) (hE : EnvPy E X Y Z) :
     ∃ syn, ConjParse (nestedRC "python_version" (.ver v)).toList syn ∧
       parseText (nestedRC "python_version" (.ver v)) = .ok syn ∧
       evalSyn E syn = some (v.allows (pyV X Y Z)) ∧ PySynQ Q syn := by
@@ -433,7 +454,7 @@ theorem nestedVer_exact (E : Env) (v : Version) (hb : PyBound v = true) (hp : v.
     rcases hr with ⟨a, e⟩ | ⟨a, b, e⟩ | ⟨a, b, c, e⟩ <;> simp [Version.precision, e] at hp
     exact ⟨a, b, c, e⟩
   have hm := leafMeans_mk E "python_full_version" "==" [a, b, c] [X, Y, Z] (Or.inr rfl)
-    (Or.inr (Or.inr (Or.inr (Or.inr rfl)))) (by simp) (by simp) hE.2 (hQ.2.2 a b c e)
+    (Or.inr (Or.inr (Or.inr (Or.inr rfl)))) (by simp) (by simp) hE.2 (hQ a b c e)
   have htxt : nestedRC "python_version" (.ver v) =
       "python_full_version" ++ " " ++ "==" ++ " \"" ++ relText [a, b, c] ++ "\"" := by
     simp [nestedRC, hp, ht, e]
@@ -487,14 +508,14 @@ def PyDom : RC → Bool
   | .rng r => PyRange r
 
 /-- the items printed for the bounds of a range constraint have the property `Q` -/
-def RCBoundQ (Q : String → List Nat → Prop) : RC → Prop
-  | .ver v => BoundQ Q v
-  | .rng r => ∀ m ∈ r.bounds, BoundQ Q m
+def RCBoundQ (Q : String → String → List Nat → Prop) : RC → Prop
+  | .ver v => BoundEqQ Q v
+  | .rng r => (∀ m, r.min = some m → BoundLoQ Q r.imin m) ∧ (∀ m, r.max = some m → BoundHiQ Q r.imax m)
 
 theorem rcBoundQ_true (rc : RC) : RCBoundQ QTrue rc := by
   cases rc with
-  | ver v => exact boundQ_true v
-  | rng r => exact fun m _ => boundQ_true m
+  | ver v => exact boundEqQ_true v
+  | rng r => exact ⟨fun m _ => boundLoQ_true _ m, fun m _ => boundHiQ_true _ m⟩
 
 theorem nestedRC_conj (E : Env) (rc : RC) (hd : PyDom rc = true) (hQ : RCBoundQ Q rc)
     (X Y Z : Nat) (hE : EnvPy E X Y Z) :
